@@ -28,11 +28,84 @@ const ASSUME_PLAY: &[&str] = &[
     "sampled, not exhaustive: positions come from named roots, synthetic placements and motif constructors followed by biased random playouts",
 ];
 
+/// Directed, exhaustive family for C01: every pin geometry. For each king square, each of
+/// the 8 directions, each pair of distances (pinned piece at d1, enemy slider at d2 > d1) and
+/// each pinned piece type, the generated moves must equal the reference's (in particular:
+/// sliding along the pin line, capturing the pinner, knights frozen, pawns only along files
+/// or capturing the pinner diagonally). Both colours (colour mirror).
+fn pin_geometry(ctx: &WorkerCtx) -> Result<(), Fail> {
+    use crate::conv::*;
+    use refchess::{fl, mk, rk, Pos, C, P};
+    let mut st = ctx.stats.borrow_mut();
+    for k in 0..64u8 {
+        if !ctx.mine(k as u64) {
+            continue;
+        }
+        for (df, dr) in refchess::KG {
+            let diag = df != 0 && dr != 0;
+            let line: Vec<u8> = (1..8).map_while(|d| mk(fl(k) + df * d, rk(k) + dr * d)).collect();
+            for i1 in 0..line.len() {
+                for i2 in i1 + 1..line.len() {
+                    for pinned in [P::Queen, P::Rook, P::Bishop, P::Knight, P::Pawn] {
+                        for pinner in [P::Queen, if diag { P::Bishop } else { P::Rook }] {
+                            let mut p = Pos::empty();
+                            p.full = 1;
+                            p.sq[k as usize] = Some((C::White, P::King));
+                            if pinned == P::Pawn && !(1..=6).contains(&rk(line[i1])) {
+                                continue;
+                            }
+                            p.sq[line[i1] as usize] = Some((C::White, pinned));
+                            p.sq[line[i2] as usize] = Some((C::Black, pinner));
+                            // black king on the first square that keeps the position valid
+                            let Some(bk) = (0..64u8).find(|&s| {
+                                if p.sq[s as usize].is_some() {
+                                    return false;
+                                }
+                                let mut q = p.clone();
+                                q.sq[s as usize] = Some((C::Black, P::King));
+                                q.plausible()
+                            }) else {
+                                continue;
+                            };
+                            p.sq[bk as usize] = Some((C::Black, P::King));
+                            for pos in [p.clone(), p.mirror()] {
+                                let legal = pos.legal();
+                                let res = guarded(|| -> Result<(), String> {
+                                    let b = to_board(&pos)?;
+                                    let gen = gen_moves(&b);
+                                    if gen != legal {
+                                        let extra: Vec<_> = gen.iter().copied().filter(|m| !legal.contains(m)).collect();
+                                        let missing: Vec<_> = legal.iter().copied().filter(|m| !gen.contains(m)).collect();
+                                        return Err(format!("C01 pin geometry `{}`: generated-but-illegal=[{}] legal-but-missing=[{}]", pos.fen(), fmt_moves(&extra), fmt_moves(&missing)));
+                                    }
+                                    Ok(())
+                                })
+                                .unwrap_or_else(Err);
+                                if let Err(d) = res {
+                                    let case = PlayCase { root: Root::Fen(pos.fen()), half: 0, full: 0, choices: vec![], aux: 0 };
+                                    return Err(Fail { case: case_json(&case), detail: d });
+                                }
+                                st.eval(1);
+                                st.nontrivial(digest(&pos.key()));
+                            }
+                        }
+                    }
+                }
+            }
+        }
+    }
+    st.class("directed: every pin geometry (king square x direction x distances x pinned type x pinner type, both colours)");
+    Ok(())
+}
+
 pub const C01: CheckDef = CheckDef {
     id: "C01",
-    worker: |ctx| play_worker(ctx, Mode::C01, cases(ctx.tier, 150_000, 3_000_000)),
+    worker: |ctx| {
+        pin_geometry(ctx)?;
+        play_worker(ctx, Mode::C01, cases(ctx.tier, 150_000, 3_000_000))
+    },
     replay: |v| play_replay(Mode::C01, v),
-    rule: "case = (root, clocks, playout choices); every visited position compares legals() as a sorted set with the reference (plus len/is_empty, is_legal on all legal moves, near-miss and generated illegal triples, periodically all 20480 triples). evaluations = positions compared. Non-trivial = position with the mover in check, a pinned piece, an en-passant marker with a capturer beside it, a castling right with an empty path, or a promotion available; distinct by (placement, turn, rights, marker).",
+    rule: "case = (root, clocks, playout choices); every visited position compares legals() as a sorted set with the reference (plus len/is_empty, is_legal on all legal moves, near-miss and generated illegal triples, periodically all 20480 triples); plus a directed EXHAUSTIVE family of all pin geometries (king square x 8 directions x distance pairs x 5 pinned types x 2 pinner types, both colours). evaluations = positions compared. Non-trivial = position with the mover in check, a pinned piece, an en-passant marker with a capturer beside it, a castling right with an empty path, or a promotion available; distinct by (placement, turn, rights, marker).",
     assumptions: ASSUME_PLAY,
     exhaustive: |_| false,
     uses_reference: true,
@@ -71,15 +144,20 @@ pub const C05: CheckDef = CheckDef {
     id: "C05",
     worker: |ctx| {
         crate::c05_extra::directed(ctx)?;
+        run_proptest(ctx, 55, ctx.share(cases(ctx.tier, 150_000, 3_000_000) / 2), crate::c05_extra::builder_strategy(), |c| serde_json::json!({"builder": c}), crate::c05_extra::builder_case)?;
         play_worker(ctx, Mode::C05, cases(ctx.tier, 150_000, 3_000_000))
     },
     replay: |v| {
         if v.get("directed").is_some() {
             return crate::c05_extra::replay(v);
         }
+        if let Some(b) = v.get("builder") {
+            let c: crate::c05_extra::BuilderCase = serde_json::from_value(b.clone()).map_err(|e| e.to_string())?;
+            return crate::c05_extra::builder_case(&c, &mut Stats::new());
+        }
         play_replay(Mode::C05, v)
     },
-    rule: "every visited board: to_string() equals the reference writer's canonical FEN byte for byte; parse(to_string()) equals the board (==, clocks, hash, {:?}, {:#?}); parse(canonical).to_string() == canonical; builder == parser when no right is held; standard() == parse(standard FEN) == builder script. evaluations = boards round-tripped. Non-trivial = marker present, 1-3 rights, a rank with >= 5 runs, or a clock >= 1000; distinct by FEN.",
+    rule: "every visited board: to_string() equals the reference writer's canonical FEN byte for byte; parse(to_string()) equals the board (==, clocks, hash, {:?}, {:#?}); parse(canonical).to_string() == canonical; builder == parser when no right is held; standard() == parse(standard FEN) == builder script; generated builder HISTORIES (place, rejected place on an occupied square, remove, turn, marker, clocks) whose build() succeeds are compared with the parser's board for the same position (==, hash, text, both debug forms, legal moves). evaluations = boards round-tripped. Non-trivial = marker present, 1-3 rights, a rank with >= 5 runs, or a clock >= 1000; distinct by FEN.",
     assumptions: ASSUME_PLAY,
     exhaustive: |_| false,
     uses_reference: true,
